@@ -155,6 +155,87 @@ func genReopen(t *rapid.T) Op {
 	return Op{K: "reopen", Fresh: weighted(t, "fresh", 3, 2) == 1}
 }
 
+// safeText: body text of a document that will be used as a template (no template syntax).
+func safeText(t *rapid.T, label string) string {
+	return rapid.SampledFrom([]string{"a", "body", "See", "x y", "中文", "", "p & q", "1."}).Draw(t, label)
+}
+
+func genSafeListOp(t *rapid.T, prev *[]Item) Op {
+	o := genListOp(t, prev)
+	o.Text = safeText(t, "sltext")
+	for i := range o.Items {
+		o.Items[i].Text = safeText(t, "sltext")
+	}
+	return o
+}
+
+func genNoteAdd(t *rapid.T) Op {
+	k := []string{"footnote", "endnote"}[weighted(t, "addk", 1, 1)]
+	return Op{K: k, Text: safeText(t, "btext"), Note: text(t, "note")}
+}
+
+// genDerived: document 0 gets notes (flavour "lists": list items), is usually saved and opened again (the notes
+// and numbering definitions now come from the file), documents are rendered from it, and then notes are added to
+// and removed from any of the documents - mostly notes the document did not add itself - (flavour "lists": list
+// items of all kinds are added to any of the documents).
+func genDerived(t *rapid.T) []Op {
+	var ops []Op
+	var prev []Item
+	lists := weighted(t, "flavour", 2, 1) == 1
+	n0 := rapid.IntRange(1, 4).Draw(t, "n0")
+	for i := 0; i < n0; i++ {
+		if lists {
+			ops = append(ops, genSafeListOp(t, &prev))
+			if weighted(t, "pre", 3, 1) == 1 {
+				ops = append(ops, genNoteAdd(t))
+			}
+			continue
+		}
+		if weighted(t, "pre", 5, 1) == 1 {
+			ops = append(ops, genSafeListOp(t, &prev))
+		}
+		ops = append(ops, genNoteAdd(t))
+	}
+	if weighted(t, "open", 1, 4) == 1 {
+		ops = append(ops, Op{K: "reopen", Cold: weighted(t, "cold", 3, 1) == 1})
+		if weighted(t, "more", 2, 1) == 1 {
+			if lists {
+				ops = append(ops, genSafeListOp(t, &prev))
+			} else {
+				ops = append(ops, genNoteAdd(t))
+			}
+		}
+	}
+	ops = append(ops, Op{K: "derive", Times: rapid.IntRange(1, 2).Draw(t, "times"), Variant: weighted(t, "render", 5, 1)})
+	n := rapid.IntRange(2, kit.Scale(9, 16)).Draw(t, "n")
+	w := []int{10, 5, 2, 1, 1, 1}
+	if lists {
+		w = []int{2, 2, 12, 1, 1, 1}
+	}
+	for i := 0; i < n; i++ {
+		var o Op
+		switch weighted(t, "dk", w...) {
+		case 0:
+			k := []string{"rmfn", "rmen"}[weighted(t, "rk", 1, 1)]
+			o = Op{K: k, IDKind: []string{"live", "removed", "unknown"}[weighted(t, "idk", 6, 2, 1)], Sel: rapid.IntRange(0, 20).Draw(t, "sel"),
+				Raw: rapid.SampledFrom(unknownIDs).Draw(t, "raw")}
+		case 1:
+			o = genNoteAdd(t)
+		case 2:
+			o = genSafeListOp(t, &prev)
+		case 3:
+			o = Op{K: "para", Text: safeText(t, "ptext")}
+		case 4:
+			o = Op{K: "reopen", Cold: weighted(t, "cold", 3, 1) == 1}
+		default:
+			o = Op{K: "derive", Times: 1, Variant: weighted(t, "render", 5, 1)}
+		}
+		o.Doc = rapid.IntRange(0, 3).Draw(t, "doc")
+		ops = append(ops, o)
+	}
+	return ops
+}
+
 // weighted draws an index with the given relative weights (uniform over the weight units, so that the
 // classes keep their share whatever bias the integer generator has towards small values).
 func weighted(t *rapid.T, label string, w ...int) int {
@@ -176,10 +257,12 @@ func weighted(t *rapid.T, label string, w ...int) int {
 }
 
 func genCase(t *rapid.T) Case {
-	kind := []string{"lists", "notes", "toc", "mixed"}[weighted(t, "kind", 3, 3, 4, 1)]
+	kind := []string{"lists", "notes", "toc", "mixed", "derived"}[weighted(t, "kind", 6, 6, 8, 2, 3)]
 	c := Case{Kind: kind}
 	var prev []Item
 	switch kind {
+	case "derived":
+		c.Ops = genDerived(t)
 	case "lists":
 		n := rapid.IntRange(1, kit.Scale(10, 20)).Draw(t, "n")
 		for i := 0; i < n; i++ {
@@ -267,8 +350,13 @@ func describe(c Case, res *kit.Result) {
 	hLevels := map[int]bool{}
 	var headLevels []int
 	seenListBeforeFresh, freshAfterList, seenNoteAdd, freshAfterNote := false, false, false, false
+	derivedSeen, itemsAfterDerive := false, 0
 	item := func(it Item, explicitStart bool) {
 		nItems++
+		if derivedSeen {
+			itemsAfterDerive++
+			res.Label("list:item-after-derive")
+		}
 		combos[fmt.Sprintf("%s/%d/%d", it.Type, it.Level, it.Start)] = true
 		if it.Level < 0 || it.Level > 8 {
 			res.Label("list:level-outside-0-8")
@@ -377,8 +465,15 @@ func describe(c Case, res *kit.Result) {
 			sig += fmt.Sprintf(":x%d", op.Times)
 		case "tocparas":
 			tocSeen = true
+		case "derive":
+			derivedSeen = true
+			sig += fmt.Sprintf(":x%d:v%d", op.Times, op.Variant)
 		case "reopen":
 			res.Label("reopen")
+			if op.Cold {
+				res.Label("reopen:cold")
+				sig += ":cold"
+			}
 			if op.Fresh {
 				res.Label("reopen:fresh-process")
 				sig += ":fresh"
@@ -393,11 +488,20 @@ func describe(c Case, res *kit.Result) {
 				res.Label("toc:reopen-with-toc")
 			}
 		}
+		if op.Doc != 0 {
+			sig += fmt.Sprintf("@%d", op.Doc)
+		}
 		shape = append(shape, sig)
 	}
+	derivedDocs, rmAfterDerive := 0, 0
 	for _, l := range res.Labels {
-		if l == "rm:live" {
+		switch l {
+		case "rm:live":
 			removals++
+		case "derived:document":
+			derivedDocs++
+		case "rm:on-derived", "rm:on-base-after-derive":
+			rmAfterDerive++
 		}
 	}
 	if tocSeen {
@@ -419,19 +523,25 @@ func describe(c Case, res *kit.Result) {
 	if tocNT {
 		res.Label("nontrivial:toc")
 	}
-	res.Nontrivial = listsNT || notesNT || tocNT
+	derivedNT := derivedDocs >= 1 && ((adds >= 2 && rmAfterDerive >= 1) || itemsAfterDerive >= 2)
+	if derivedNT {
+		res.Label("nontrivial:derived")
+	}
+	res.Nontrivial = listsNT || notesNT || tocNT || derivedNT
 	res.Shape = c.Kind + "|" + strings.Join(shape, "|")
 }
 
 func TestC15(t *testing.T) {
 	kit.Main(t, kit.Spec[Case]{
 		ID: "C15", Level: "exploration",
-		Rule: "a case is one document history of a drawn kind (lists | notes | toc | mixed): lists = 1-10 (thorough 1-20) calls of AddListItem/AddBulletList/AddNumberedList/CreateMultiLevelList/AddListItem(nil) over every ListType, every BulletType, levels -1..10, starts 0..9 (every fourth item repeats the type/symbol/level of an earlier one with a new start); notes = AddFootnote/AddEndnote/AddFootnoteToRun/RemoveFootnote/RemoveEndnote with live, already-removed and unknown ids and XML-expressible texts; toc = headings (levels 1-9, texts incl. empty/blank), paragraphs, tables, an optional foreign paragraph-style TOC, GenerateTOC/AutoGenerateTOC (MaxLevel 1-9 or nil config), UpdateTOC x1-3, ListHeadings/GetHeadingCount; every kind with reopen (ToBytes->OpenFromMemory; the registries are per-document, an opened document starts with empty ones). non-trivial = lists: >=3 items of >=2 type/level/start combinations; notes: >=2 adds and >=1 successful removal; toc: >=3 headings of >=2 levels, one deeper than MaxLevel, and an update/regeneration after a heading was added to a document that already had a TOC. distinct = distinct sequence of (op kind, list type+level | id kind | heading level | MaxLevel | repetitions | fresh)",
+		Rule: "a case is one history of a drawn kind (lists | notes | toc | mixed | derived): lists = 1-10 (thorough 1-20) calls of AddListItem/AddBulletList/AddNumberedList/CreateMultiLevelList/AddListItem(nil) over every ListType, every BulletType, levels -1..10, starts 0..9 (every fourth item repeats the type/symbol/level of an earlier one with a new start); notes = AddFootnote/AddEndnote/AddFootnoteToRun/RemoveFootnote/RemoveEndnote with live, already-removed and unknown ids and XML-expressible texts; toc = headings (levels 1-9, texts incl. empty/blank), paragraphs, tables, an optional foreign paragraph-style TOC, GenerateTOC/AutoGenerateTOC (MaxLevel 1-9 or nil config), UpdateTOC x1-3, ListHeadings/GetHeadingCount; every kind with reopen (ToBytes->OpenFromMemory; the registries are per-document and an opened document continues from the parts it came with: its model keeps the notes and list items of the file); derived = several documents: document 0 gets 1-4 notes and now and then list items (1 case in 3: list items and now and then notes, and the later ops are mostly list ops), is saved and opened again in 4 of 5 cases (1 in 4 of those 'cold': no note call before the rendering), 1-2 documents are rendered from it (LoadTemplateFromDocument + RenderTemplateToDocument, 1 in 6 RenderToDocument), then 2-9 (thorough 2-16) ops each aimed at one of the documents (note removals by live/removed/unknown id, note adds, list ops, paragraphs, reopen, a further rendering from any document) - every document has its own model (a copy of its source's at the time of the rendering) and ALL documents are saved and judged after every op. non-trivial = lists: >=3 items of >=2 type/level/start combinations; notes: >=2 adds and >=1 successful removal; toc: >=3 headings of >=2 levels, one deeper than MaxLevel, and an update/regeneration after a heading was added to a document that already had a TOC. derived: >=1 rendered document and (>=2 note adds and >=1 successful removal after a rendering, or >=2 list items added after a rendering). distinct = distinct sequence of (op kind, list type+level | id kind | heading level | MaxLevel | repetitions | fresh | cold | document index)",
 		Gen:  genCase, Run: run, Findings: findings, Fixed: fixedCases,
 		MustSee: map[string]float64{"kind:lists": 0.15, "kind:notes": 0.12, "kind:toc": 0.15, "kind:mixed": 0.03, "reopen": 0.2, "reopen:fresh-process": 0.08,
 			"list:level-outside-0-8": 0.07, "list:same-definition-key-other-start": 0.05, "list:start-judged": 0.15, "rm:live": 0.05, "rm:unknown": 0.08, "rm:removed": 0.004,
 			"toc:update-after-change": 0.04, "toc:heading-at-max-level": 0.05, "toc:heading-empty-text": 0.06, "toc:max-level-not-3": 0.12, "toc:update-repeated": 0.05,
-			"toc:auto-with-existing-toc": 0.05, "toc:paragraph-style": 0.008, "nontrivial:lists": 0.12, "nontrivial:notes": 0.05, "nontrivial:toc": 0.04},
+			"toc:auto-with-existing-toc": 0.05, "toc:paragraph-style": 0.008, "nontrivial:lists": 0.12, "nontrivial:notes": 0.05, "nontrivial:toc": 0.04,
+			"kind:derived": 0.05, "derived:base-has-notes-from-file": 0.03, "rm:note-from-file": 0.03, "rm:inherited-note": 0.02, "rm:on-derived": 0.02, "rm:on-base-after-derive": 0.02,
+			"derived:base-cold": 0.004, "list:item-after-derive": 0.02, "nontrivial:derived": 0.03},
 		Assumptions: []string{
 			"numbering, notes and TOC are read from word/numbering.xml, word/footnotes.xml, word/endnotes.xml and the w:sdt[docPartGallery='Table of Contents'] / TOCn-styled paragraphs of word/document.xml by the harness's own readers",
 			"AddNumberedList and AddBulletList name no start number: w:start is not judged for their items; StartNumber is judged for AddListItem/CreateMultiLevelList items of ordered types only (the field is documented as 'ordered lists only')",
@@ -439,6 +549,8 @@ func TestC15(t *testing.T) {
 			"ListHeadings is compared on the entries with non-empty text (the statement is silent on headings without text); GetHeadingCount counts every heading paragraph",
 			"the body references of notes are plain text markers in this library; only 'every w:footnoteReference/w:endnoteReference resolves' is judged, not the converse",
 			"a TOC entry's text is the text of the placeholder control before the entry paragraph plus the paragraph's run text minus the trailing tab+page number",
+			"documents rendered from a document (TemplateEngine) start as copies of it: each has the notes and list items of its source at the time of the rendering and from then on a history of its own; 'that document's notes part' and 'per-document counts and removals' are judged for every document of the case after every op, whichever document the op was aimed at",
+			"body texts of documents that are used as templates contain no template syntax; whether the engine renders a document at all is not judged here (a refused rendering is counted and skipped); RenderToDocument appends the text of the body again, so the body (not the lists and notes) of such a document is not modelled",
 			"GenerateTOC is an append constructor (C08): it is not called a second time on a document that has a TOC; AutoGenerateTOC documents that it replaces an existing TOC",
 		},
 	})
